@@ -2086,6 +2086,29 @@ class Engine:
             fr['bb'] = None
             self.push_frame(st, cf, [args[1], RefV(mp.fields['__cells'][ent.fields['__idx']])], None, retbb)
             return
+        um = re.match(r'^Option::<.*>::unwrap_or_else::<(\{closure@[^}]*\})>$', callee)
+        if v is None and um and isinstance(args[0], EnumV):
+            # Some(x) => x, None => the closure's value (its MIR body is executed); a symbolic discriminant forks the path
+            o = args[0]; dm_ = re.match(r'^(_\d+)$', dest)
+            cf = self.closure_fn(um.group(1), st, fn.locals.get(dm_.group(1)) if dm_ else None)
+            if cf is not None and cf.blocks and 1 in o.payload and 0 in o.payload[1]:
+                d = zint_(o.disc)
+                some_ok = self.feasible(st.pc + [d == 1]); none_ok = self.feasible(st.pc + [d == 0])
+                argstrs = [a for a in split_top(argstr, ',') if a.strip()]
+                outs = []
+                if some_ok and none_ok: self.stats['forks'] += 1
+                if some_ok:
+                    ns = st.clone() if none_ok else st
+                    ns.pc.append(d == 1); a2 = [self.operand(ns, a) for a in argstrs]
+                    self.assign(ns, dest, a2[0].payload[1][0]); self.goto(ns, retbb); outs.append(ns)
+                if none_ok:
+                    ns = st
+                    ns.pc.append(d == 0); a2 = [self.operand(ns, a) for a in argstrs]
+                    env = a2[1] if len(a2) > 1 else StructV('closure', 'env', {}, lazy=False)
+                    ns.frames[-1]['bb'] = None
+                    self.push_frame(ns, cf, [env], dest, retbb); outs.append(ns)
+                if not outs: raise PathEnd('infeasible')
+                return outs if len(outs) > 1 else None
         cm = re.match(r'^<(\{closure@[^}]*\}) as (Fn|FnMut|FnOnce)<\(.*\)>>::(call|call_mut|call_once)$', callee)
         if v is None and cm:
             dm_ = re.match(r'^(_\d+)$', dest)
